@@ -19,7 +19,7 @@ THEOREMS = ['C06_chain_invariant', 'C06_point_round_trip', 'C06_composition_orde
 def streams(tier):
     if tier == 'quick': return [Stream('C06', 1200)]
     if tier == 'search': return [Stream('C06', 6000)]
-    return [Stream('C06', 12000), Stream('C06', 4000, release=True)]
+    return [Stream('C06', 12000), Stream('C06', 4000, release=True), Stream('C06', 1500, f32=True)]
 
 def fl(c, key, st):
     fm = Fmt(st.f32 if st is not None else False)
@@ -42,7 +42,8 @@ def M(v): return [[Fr(v[4 * r + c]) for c in range(4)] for r in range(4)]
 def mm(a, b): return [[sum(a[r][k] * b[k][c] for k in range(4)) for c in range(4)] for r in range(4)]
 def mabs(a): return [[abs(x) for x in r] for r in a]
 ID = [[Fr(int(r == c)) for c in range(4)] for r in range(4)]
-TOL = Fr(1, 10 ** 9)
+TOL = Fr(1, 10 ** 9)      # f64 'up to rounding'; rebound per stream in oracle() for the f32 build
+TOL64 = Fr(1, 10 ** 9); TOL32 = Fr(1, 2 * 10 ** 4)
 
 def inverse_ok(e, i):
     p = mm(e, i); q = mm(i, e); s = mm(mabs(e), mabs(i)); s2 = mm(mabs(i), mabs(e))
@@ -66,9 +67,13 @@ def apt(m, p): return [sum(m[r][k] * p[k] for k in range(3)) + m[r][3] for r in 
 def avec(m, p): return [sum(m[r][k] * p[k] for k in range(3)) for r in range(3)]
 def anrm(m, p): return [sum(m[k][r] * p[k] for k in range(3)) for r in range(3)]
 def mag_pt(m, p): return [sum(abs(m[r][k] * p[k]) for k in range(3)) + abs(m[r][3]) for r in range(3)]
-def close(a, b, mag, tol=TOL): return all(abs(Fr(x) - y) <= tol * (1 + g) for x, y, g in zip(a, b, mag))
+def close(a, b, mag, tol=None):
+    tol = TOL if tol is None else tol
+    return all(abs(Fr(x) - y) <= tol * (1 + g) for x, y, g in zip(a, b, mag))
 
 def oracle(c, st):
+    global TOL
+    TOL = TOL32 if (st is not None and st.f32) else TOL64
     k = c['kind']
     if k == 'ctor':
         o = fl(c, 'out', st)
@@ -99,7 +104,7 @@ def oracle(c, st):
         for r_ in range(3):
             for cc in range(4):
                 mag = sum(abs(P[r_][q]) for q in range(4))
-                if abs(P[r_][cc] - E[r_][cc]) > Fr(1, 10 ** 8) * (1 + mag): return ('C06:chain-matrix', 'matrix of the chain differs from the ordered product at (%d,%d)' % (r_, cc))
+                if abs(P[r_][cc] - E[r_][cc]) > 10 * TOL * (1 + mag): return ('C06:chain-matrix', 'matrix of the chain differs from the ordered product at (%d,%d)' % (r_, cc))
     r = inverse_ok(E, I)
     if r: return ('C06:chain-inverse', r)
     x = [Fr(v) for v in i]
@@ -107,7 +112,7 @@ def oracle(c, st):
         m = E if op == 0 else I
         if not close(o, apt(m, x), mag_pt(m, x)): return ('C06:apply-pt', 'transform_pt result is not the image under the stored matrix')
         back = apt(I if op == 0 else E, apt(m, x))
-        if not close([float(b) for b in back], x, mag_pt(I if op == 0 else E, apt(m, x)), Fr(1, 10 ** 8)): return ('C06:round-trip', 'inverse(transform(p)) != p')
+        if not close([float(b) for b in back], x, mag_pt(I if op == 0 else E, apt(m, x)), 10 * TOL): return ('C06:round-trip', 'inverse(transform(p)) != p')
     elif op in (2, 3):
         m = E if op == 0 + 2 else I
         if not close(o, avec(m, x), mag_pt(m, x)): return ('C06:apply-vec', 'transform_vec result is not the image under the linear part')
